@@ -16,10 +16,11 @@ import (
 
 	"github.com/flamego/flamego"
 	"github.com/flamego/flamego/verifharness/internal/evid"
+	"github.com/flamego/flamego/verifharness/internal/gen"
 	"github.com/flamego/flamego/verifharness/internal/rt"
 )
 
-const rule = "case = one handler of a supported return shape (string, []byte, error, *string, named string, any holding a string, (int,string), (int,[]byte), (int,error), (string,error), ([]byte,error); func() (int,string) both as the auto-wrapped fast path and as a named func type invoked reflectively) optionally flushing, sending a status line or writing itself first and then returning generated values (arbitrary bytes, empty, nil, nil/non-nil errors of 4 concrete types incl. one with an empty message, status 100..999), placed as middleware, group handler, route handler or action, followed by a marker handler; optionally a custom ReturnHandler mapped at application or request scope. " +
+const rule = "case = one handler of a supported return shape (string, []byte, error, *string, named string, any holding a string, (int,string), (int,[]byte), (int,error), (string,error), ([]byte,error); func() (int,string) both as the auto-wrapped fast path and as a named func type invoked reflectively) optionally flushing, sending a status line or writing itself first and then returning generated values (arbitrary bytes, occasionally 0.5..70 KB of them, empty, nil, nil/non-nil errors of 4 concrete types incl. one with an empty message, status 100..999), placed as middleware, group handler, route handler or action, followed by a marker handler; optionally a custom ReturnHandler mapped at application or request scope. " +
 	"Oracle: an own table (status, body, chain continues?) checked on a spy writer (after the handler's own output, if any: the returned values are rendered all the same), 'marker ran <=> nothing was written', fast path == reflective path, and a custom ReturnHandler receives exactly the returned values while the table is not applied. " +
 	"non-trivial = empty / nil / zero results, a nil error in a pair, a pointer or interface result, a non-200 status, a position other than the route handler, or a custom ReturnHandler; distinct by case text"
 
@@ -43,7 +44,7 @@ type Case struct {
 	Pre string `json:"pre,omitempty"`
 	// Own is what the handler itself does to the response before it returns:
 	// "", flush, wh (WriteHeader 202), w (Write "own:").
-	Own string `json:"own,omitempty"`
+	Own    string `json:"own,omitempty"`
 	Method string `json:"method"`
 }
 
@@ -367,7 +368,7 @@ func genCase(t *rapid.T) Case {
 	default:
 		s = rapid.StringMatching(`[a-zA-Z0-9 <>&%\n]{0,12}`).Draw(t, "s")
 	}
-	c.S = strconv.QuoteToASCII(s)
+	c.S = strconv.QuoteToASCII(gen.Big(t, s))
 	c.Nil = rapid.IntRange(0, 3).Draw(t, "nil") == 0
 	c.Err = []string{"nil", "nil", "new", "custom", "wrapped", "emptymsg"}[rapid.IntRange(0, 5).Draw(t, "err")]
 	return c
